@@ -47,7 +47,7 @@ PROPS = {
     "C03": wire("C03"),
     "C04": wire("C04", ["client half (oneway() performs no read) is covered by C07's client model"]),
     "C05": wire("C05", ["replies handed to reply_struct are built by Reply::parameters/error (no continues member of their own)"]),
-    "C06": wire("C06", ["absence of panics in serde_json/std for arbitrary bytes is observed on the generated inputs, not proved"]),
+    "C06": with_listen(wire("C06", ["absence of panics in serde_json/std for arbitrary bytes is observed on the generated inputs, not proved"])),
 }
 
 
